@@ -22,6 +22,14 @@ pub struct Excl {
     pub embedded_skin_batches: bool,
     /// embedded skin profiles carried across a version conversion between 256 and 260
     pub embedded_skins_on_convert: bool,
+    /// bone-track ranges (pre-WotLK) carried into a WotLK+ target (written as unreferenced bytes)
+    pub bone_ranges_on_upconvert: bool,
+    /// skins with submeshes and batches together (batch offset assumes 40-byte submeshes)
+    pub skin_batches_after_submeshes: bool,
+    /// modern ANIM sections with key-frame tracks (section size covers the bone data)
+    pub anim_modern_tracks: bool,
+    /// legacy ANIM container (its parser is a placeholder)
+    pub anim_legacy: bool,
     /// key-frame arrays whose counts disagree or that share storage
     pub odd_key_counts: bool,
 }
@@ -35,6 +43,10 @@ impl Excl {
             seq_start_overflow: true,
             embedded_skin_batches: true,
             embedded_skins_on_convert: true,
+            bone_ranges_on_upconvert: true,
+            skin_batches_after_submeshes: true,
+            anim_modern_tracks: true,
+            anim_legacy: true,
             odd_key_counts: false,
         }
     }
@@ -46,6 +58,10 @@ impl Excl {
             seq_start_overflow: false,
             embedded_skin_batches: false,
             embedded_skins_on_convert: false,
+            bone_ranges_on_upconvert: false,
+            skin_batches_after_submeshes: false,
+            anim_modern_tracks: false,
+            anim_legacy: false,
             odd_key_counts: false,
         }
     }
@@ -95,6 +111,47 @@ impl Excl {
         {
             s.embedded_skins.clear();
             fired.push("embedded_skins_on_convert");
+        }
+        if self.bone_ranges_on_upconvert && s.ver.num() < 264 && c.target.num() >= 264 {
+            let mut hit = false;
+            for b in &mut s.bones {
+                for k in [&mut b.t, &mut b.r, &mut b.s].into_iter().flatten() {
+                    if k.n_rng > 0 && (k.n_ts > 0 || k.n_val > 0) {
+                        k.n_rng = 0;
+                        hit = true;
+                    }
+                }
+            }
+            if hit {
+                fired.push("bone_ranges_on_upconvert");
+            }
+        }
+        fired
+    }
+    pub fn apply_skin(&self, s: &mut SkinSpec) -> Vec<&'static str> {
+        let mut fired = vec![];
+        if self.skin_batches_after_submeshes && !s.submeshes.is_empty() && !s.batches.is_empty() {
+            s.batches.clear();
+            fired.push("skin_batches_after_submeshes");
+        }
+        fired
+    }
+    pub fn apply_anim(&self, a: &mut AnimSpec) -> Vec<&'static str> {
+        let mut fired = vec![];
+        if self.anim_legacy && !a.modern {
+            a.modern = true;
+            fired.push("anim_legacy");
+        }
+        if self.anim_modern_tracks
+            && a.modern
+            && a.sections.iter().flat_map(|s| &s.bones).any(|b| b.t.is_some() || b.r.is_some() || b.s.is_some())
+        {
+            for b in a.sections.iter_mut().flat_map(|s| &mut s.bones) {
+                b.t = None;
+                b.r = None;
+                b.s = None;
+            }
+            fired.push("anim_modern_tracks");
         }
         fired
     }
@@ -382,7 +439,7 @@ pub fn normalise(s: &mut ModelSpec, keymode: u8, _odd: bool) {
 // ---------------------------------------------------------------------------------------
 // skin / anim strategies
 
-pub fn skin_spec() -> impl Strategy<Value = SkinSpec> {
+pub fn skin_spec(x: Excl) -> impl Strategy<Value = (SkinSpec, Vec<&'static str>)> {
     (
         prop_oneof![2 => Just(None), 1 => Just(Some(0u32)), 2 => Just(Some(1u32)), 2 => Just(Some(2u32))],
         prop_oneof![2 => sized(u16x(), 4), 3 => vec(u16x(), 5..40).boxed()],
@@ -395,31 +452,39 @@ pub fn skin_spec() -> impl Strategy<Value = SkinSpec> {
         ver(),
     )
         .prop_map(
-            |(new_version, indices, triangles, bone_quads, submeshes, batches, bone_count_max, vertex_count, target)| SkinSpec {
-                new_version,
-                indices,
-                triangles,
-                bone_quads,
-                submeshes,
-                batches,
-                bone_count_max,
-                vertex_count,
-                target,
+            move |(new_version, indices, triangles, bone_quads, submeshes, batches, bone_count_max, vertex_count, target)| {
+                let mut s = SkinSpec {
+                    new_version,
+                    indices,
+                    triangles,
+                    bone_quads,
+                    submeshes,
+                    batches,
+                    bone_count_max,
+                    vertex_count,
+                    target,
+                };
+                let fired = x.apply_skin(&mut s);
+                (s, fired)
             },
         )
 }
 
-pub fn anim_spec() -> impl Strategy<Value = AnimSpec> {
+pub fn anim_spec(x: Excl) -> impl Strategy<Value = (AnimSpec, Vec<&'static str>)> {
     let track = || prop_oneof![3 => Just(None), 2 => (0u8..5).prop_map(Some)];
     let bone = (u32x(), track(), track(), track(), seed())
         .prop_map(|(bone_id, t, r, s, seed)| AnimBoneSpec { bone_id, t, r, s, seed });
     let section = (u32x(), u32x(), u32x(), sized(bone, 5))
         .prop_map(|(id, start, end, bones)| AnimSectionSpec { id, start, end, bones });
-    (any::<bool>(), u32x(), u32x(), sized(section, 4)).prop_map(|(modern, version, unknown, sections)| AnimSpec {
-        modern,
-        version,
-        unknown,
-        sections,
+    (any::<bool>(), u32x(), u32x(), sized(section, 4)).prop_map(move |(modern, version, unknown, sections)| {
+        let mut a = AnimSpec {
+            modern,
+            version,
+            unknown,
+            sections,
+        };
+        let fired = x.apply_anim(&mut a);
+        (a, fired)
     })
 }
 
